@@ -27,6 +27,7 @@ inductive Prog where
   | chanRecv (ch src : String)
   | chanClose (ch src : String)
   | go (name src : String)
+  | access (loc kind src : String)   -- read ("r") / write ("w") of a curated shared location (C15); no lock effect
   | seq (a b : Prog)
   | alt (a b : Prog)
   | loop (body : Prog)
@@ -214,6 +215,7 @@ inductive Exec (facts : Facts) : String → Prog → TS → List Ev → TS → E
   | chanRecv : Exec facts c (.chanRecv ch s) ts [.wait ch ts.held] ts .normal
   | chanClose : Exec facts c (.chanClose ch s) ts [] ts .normal
   | go : Exec facts c (.go name s) ts [] ts .normal
+  | access : Exec facts c (.access loc kind s) ts [] ts .normal
   | seqNormal : Exec facts c a ts e1 ts1 .normal → Exec facts c b ts1 e2 ts2 ex →
       Exec facts c (.seq a b) ts (e1 ++ e2) ts2 ex
   | seqExit : Exec facts c a ts e1 ts1 ex → ex ≠ .normal → Exec facts c (.seq a b) ts e1 ts1 ex
@@ -275,6 +277,7 @@ def absRun (facts : Facts) (T : Table) (caller : String) : Prog → TS → Outs
   | .chanRecv ch _, ts => if evOk (.wait ch ts.held) then some [(ts, .normal)] else none
   | .chanClose _ _, ts => some [(ts, .normal)]
   | .go _ _, ts => some [(ts, .normal)]
+  | .access _ _ _, ts => some [(ts, .normal)]
   | .seq a b, ts => bindOuts (absRun facts T caller a ts) (absRun facts T caller b) (· = .normal)
   | .alt a b, ts =>
     match absRun facts T caller a ts, absRun facts T caller b ts with
